@@ -80,11 +80,12 @@ CHECKS['C10'] = dict(cat='other', engine='symnp',
          'chunked path) and compute_histogram (1-d and 2-d, weights, reversed ranges, selections) are executed on arrays whose '
          'values (NaN/inf included), masks and range ends are solver variables; the mask bounding-box logic forks under solver '
          'control; z3 proves every result element equal to the NaN-aware definition over the full array and the bin totals '
-         'equal to the in-range count.', ref='5/C10',
+         'equal to the in-range count; log-space 1-d histograms over four concrete ranges with log10 as a weakly monotone '
+         'double-valued uninterpreted function (S-log10).', ref='5/C10',
     note=NOTE_SYM + '; S-hist: fast_histogram kernels replaced by floor((x-lo)/(hi-lo)*n) with a double-precision guard at the '
          'upper edge (values closer than a quarter ulp to it are the edge); S-nextafter/S-spacing: one ulp is a fresh value in '
          '[|x|2^-53, |x|2^-52]; values within 1e-9 of the width of an interior bin edge (but not on it) are outside the claim; '
-         'log-space histograms and random_subset are outside the claim')
+         'log-space histograms: concrete range ends, 1-d only; random_subset is outside the claim')
 
 CHECKS['C14'] = dict(cat='other', engine='symnp',
     technique='symbolic execution of the real link machinery on arrays of SMT terms + SMT equivalence; dependency DAGs enumerated by the solver',
@@ -93,7 +94,7 @@ CHECKS['C14'] = dict(cat='other', engine='symnp',
          'broadcast inputs, user link as left operand) and parsed text commands (incl. nested parsed attributes) are evaluated '
          'on the whole dataset and for a view family and proved equal to the expression applied elementwise. Removal/update_id: '
          'every dependency DAG of 3 (thorough: 4) derived attributes over 2 stored ones, with and without a shared sub-expression '
-         'object, every victim: survivors = non-dependants in the old order with unchanged values, every removal announced once.',
+         'object, stored in creation order / with the derived attributes reordered / with one redefined in place, every victim: survivors = non-dependants in the old order with unchanged values, every removal announced once.',
     ref='5/C14', note=NOTE_SYM + '; divisors assumed non-zero (sign of zero not modelled); numpy functions inside parsed commands outside the claim')
 
 CHECKS['C15'] = dict(cat='other', engine='symnp',
@@ -138,7 +139,8 @@ CHECKS['C11'] = dict(cat='other', engine='symnp',
     text='Single-key shapes 1-1, 1-n, n-1: key columns are symbolic extended reals (NaN included), the selection on the other '
          'dataset is an arbitrary symbolic mask; both directions, several views; z3 proves a row is selected iff its key equals by '
          'value the key of a selected row. Tuple-of-keys shape: the real byte-level concatenate_arrays runs on solver-enumerated '
-         'key columns (int64, float64, strings) with a solver-forked selection. Chains of 2-3 (thorough 4) datasets: the selection '
+         'key columns (int64, float64, strings; 16 rows on the other side in one harness) with a solver-forked selection; single-key '
+         'shapes additionally on concrete columns of mixed storage types with integers beyond 2**53. Chains of 2-3 (thorough 4) datasets: the selection '
          'is propagated join by join; cycles and unanswerable selections terminate with IncompatibleAttribute, the recursion '
          'guard is released, and a failed request does not disturb the next one.', ref='5/C11',
     note=NOTE_SYM + '; tuple-shape key columns have the same dtype on both sides (mixed dtypes: recorded finding '
@@ -147,7 +149,8 @@ CHECKS['C11'] = dict(cat='other', engine='symnp',
 CHECKS['C09'] = dict(cat='other', engine='symnp',
     technique='symbolic execution of roi_to_subset_state and the returned selection classes (symbolic region parameters and numeric values, solver-enumerated category orders) + SMT',
     text='For the four axis-kind combinations, every listed ordering of three categories, ranges / RangeROI / rectangles with '
-         'symbolic bounds and polygon-like regions (triangle, concave L, box; circle and ellipse) with a symbolic translation, '
+         'symbolic bounds and polygon-like regions (triangle, concave L, box; circle, rotated ellipse, rotated rectangle; annulus with '
+         'enumerated centre/radii) with a symbolic translation, '
          'and symbolic numeric values (NaN included), z3 proves that a row is selected iff its plotted position (category index '
          'for categorical axes) lies in the region, outside a boundary band. Code reached: roi_to_subset_state (all branches), '
          'CategoricalROI.from_range/contains, CategoricalROISubsetState, CategoricalROISubsetState2D, '
@@ -169,7 +172,7 @@ CHECKS['C06'] = dict(cat='model_checking', struct=True, engine='symnp (explorer)
 CHECKS['C13'] = dict(cat='model_checking', struct=True, engine='symnp (explorer) on the real CommandStack',
     technique='bounded model checking: solver-enumerated do/undo/redo traces on a real Session, snapshots compared structurally and by SMT mask equivalence',
     text='Every trace of 4 (thorough 5) steps over AddData, RemoveData, ApplySubsetState (each edit mode, with and without '
-         'override_mode), ApplyROI, undo and redo, plus 6-step (thorough 7) undo/redo interleavings after two arbitrary commands: '
+         'override_mode), ApplyROI, undo and redo from three (thorough four) start states incl. a single dataset carrying a group, plus 6-step (thorough 7) undo/redo interleavings after two arbitrary commands: '
          'after each undo the snapshot (datasets, groups with label and style, membership, edit-subset choice, every subset mask as '
          'a term over symbolic data) equals the snapshot before the command, after each redo the one after it; a new command clears '
          'the redo history, can_undo_redo matches the history, and the undo history never exceeds MAX_UNDO (symbolic command count).',
@@ -181,7 +184,7 @@ CHECKS['C13'] = dict(cat='model_checking', struct=True, engine='symnp (explorer)
 CHECKS['C17'] = dict(cat='model_checking', struct=True, engine='symnp (explorer) on the real Data',
     technique='bounded model checking: solver-enumerated operation sequences (valid and invalid arguments) on a real Data, invariant + message-log oracle + SMT value equalities',
     text='Every sequence of 3 (thorough 4) operations over add_component (valid / wrong shape / duplicate label), derived and '
-         'derived-of-derived attributes, remove_component (any victim / foreign id), reorder (valid / invalid), update_id, '
+         'derived-of-derived attributes, remove_component (any victim / foreign id), reorder (stored or derived attributes / invalid), update_id, '
          'update_components (valid / wrong shape), update_values_from_data (same / new shape), coords set / unset and label, on a '
          'dataset with no / identity / affine coordinates inside and outside a collection, plus two free steps after a three-level '
          'derived chain: after every step all components have the dataset shape, one pixel attribute per dimension, world '
@@ -198,7 +201,9 @@ CHECKS['C03'] = dict(cat='other', engine='symnp',
          'or in one delayed update, over three datasets with symbolic values: for every dataset and attribute, readable iff a '
          'chain exists (independent least-fixpoint closure), the value read equals the composition along a minimum-depth chain '
          '(disjunction over equally short chains), a selection on the attribute selects by those values and is incompatible '
-         'elsewhere. Then one mutation (remove / add link, remove a component or derived source attribute, remove a dataset, '
+         'elsewhere; the derived attribute inside the middle dataset is defined one-way or with an inverse (two-way). Then one mutation '
+         '(thorough: every ordered pair of mutations; remove / add link, remove a component, a derived source attribute or the input of '
+         'one, remove a dataset, '
          'remove and re-append, replace a link by set_links or inside delay_link_manager_update) and the same obligations plus: '
          'no registered link, externally derivable attribute or pixel-alignment entry refers to a removed object.', ref='5/C03',
     note=NOTE_SYM + '; link functions are fixed pairwise independent affine maps; 3 datasets (the property mentions ~5); key joins '
@@ -212,7 +217,8 @@ CHECKS['C02'] = dict(cat='other', engine='symnp',
          'coordinates, none) is written with the real GlueSerializer (real json) and read back; either saving fails loudly or every '
          'dataset has the same labels, component order, values (as terms over the symbolic payload), reachable linked attributes, '
          'key joins, subset masks on every dataset (or the same incompatibility), styles (alpha 0 included) and metadata; a second '
-         'round trip gives the same again.', ref='5/C02',
+         'round trip gives the same again. Composite selections (each recipe combined by & | ^ ~ with partner recipes, partner alone in '
+         'a second group): six recipes in the quick tier, all in the thorough tier.', ref='5/C02',
     note=NOTE_SYM + '; structure and selection parameters are concrete (sampled asymmetric values), the payload is symbolic; '
          'include_data=False, Mpl ROIs, viewers and FloodFillSubsetState are outside the claim; recorded finding '
          'C02/selection-without-saver excluded by its witness class')
